@@ -102,7 +102,7 @@ def w_pipeline(pid, tier, seed, job):
 
 
 # ------------------------------------------------------------------------- image level
-AK_STEMS = ["A", "PAD", "B 1", "LL", "X-"]
+AK_STEMS = ["A", "PAD", "B 1", "LL", "X-", "T.1", "T.2", "T.1.5"]
 AK_SUFF = ["", " L", " R", "-L", "-R", "  L", "  R", " -L", " -R"]
 
 
